@@ -248,9 +248,8 @@ func (f changeFinder) walkSlice(from, to *value) bool {
 		return equal
 	}
 
-	es := diff.Difference(from.Len(), to.Len(), func(i, j int) diff.Result {
-		return compareNodes(from.Children[i], to.Children[j])
-	})
+	compare, _ := compareChildren(from, to)
+	es := diff.Difference(from.Len(), to.Len(), compare)
 
 	regions := make([]Region, from.Len())
 	for i, n := range from.Children {
@@ -322,6 +321,30 @@ func (f changeFinder) walkSlice(from, to *value) bool {
 
 type nodeComparer struct{ diff.Result }
 
+// compareChildren returns a function that compares the i-th child of from
+// with the j-th child of to, and the table in which it records the results.
+//
+// diff.Difference may ask about the same pair more than once. Comparing two
+// subtrees is itself recursive, so without remembering the answers the cost
+// doubles with every level of nesting and a small but deeply nested file takes
+// forever.
+func compareChildren(from, to *value) (diff.EqualFunc, [][]diff.Result) {
+	results := make([][]diff.Result, from.Len())
+	done := make([][]bool, from.Len())
+	for i := range results {
+		results[i] = make([]diff.Result, to.Len())
+		done[i] = make([]bool, to.Len())
+	}
+
+	return func(i, j int) diff.Result {
+		if !done[i][j] {
+			results[i][j] = compareNodes(from.Children[i], to.Children[j])
+			done[i][j] = true
+		}
+		return results[i][j]
+	}, results
+}
+
 func compareNodes(from, to *value) diff.Result {
 	var c nodeComparer
 	c.Walk(from, to)
@@ -362,16 +385,8 @@ func (c *nodeComparer) Walk(from, to *value) {
 		}
 
 	case reflect.Slice:
-		results := make([][]diff.Result, from.Len())
-		for i := range results {
-			results[i] = make([]diff.Result, to.Len())
-		}
-
-		es := diff.Difference(from.Len(), to.Len(), func(i, j int) diff.Result {
-			result := compareNodes(from.Children[i], to.Children[j])
-			results[i][j] = result
-			return result
-		})
+		compare, results := compareChildren(from, to)
+		es := diff.Difference(from.Len(), to.Len(), compare)
 
 		var i, j int
 		for _, e := range es {
